@@ -41,6 +41,11 @@ def run(tier):
         for sid in ('', 'bob'):
             extra.append([O('setlock', t=t, b=False), O('setsession', s=sid), O('setprefix', t=t), O('put', k='a0', v='x%d%s' % (t, sid)), O('put', k='b1', v='y%d%s' % (t, sid)),
                           O('dump'), O('dump', k='a'), O('setsession', s='alice'), O('dump'), O('get', k='a0')])
+    # a listing is a read: whatever language / session / type the handle had before it, it has afterwards (translatable types)
+    for t in (2, 4, 8):
+        for lg in ('nor', 'eng'):
+            extra.append([O('setlock', t=t, b=False), O('setprefix', t=t), O('put', k='k1', v='d%d' % t), O('setlang', s=lg), O('put', k='k1', v='t%d%s' % (t, lg)),
+                          O('dump'), O('get', k='k1'), O('put', k='k2', v='u%d%s' % (t, lg)), O('dump', k='k'), O('get', k='k2'), O('setlang', s=''), O('get', k='k2'), O('get', k='k1')])
     extra += [q for q in kv.session_switch_sequences() if '' not in (q[1]['s'], q[3]['s'])]
     with open(sp, 'a') as f:
         for e in extra:
